@@ -405,7 +405,7 @@ func main() {
 	fnF := parseFile(filepath.Join(repo, "valid/validfn.go"))
 	writeIfChanged(filepath.Join(outDir, "SourceFns.v"), miniGo(
 		map[string]*ast.File{"valid/common.go": commonF, "valid/cache.go": cacheF, "valid/validfn.go": fnF},
-		[][2]string{{"valid/common.go", "validInputSize"}, {"valid/common.go", "ParseValidNameKV"}, {"valid/validfn.go", "eq"},
+		[][2]string{{"valid/common.go", "validInputSize"}, {"valid/common.go", "ParseValidNameKV"}, {"valid/common.go", "IsExported"}, {"valid/validfn.go", "eq"},
 			{"valid/cache.go", "LRUCache_Store"}, {"valid/cache.go", "LRUCache_Load"}, {"valid/cache.go", "LRUCache_Delete"},
 			{"valid/cache.go", "LRUCache_delete"}, {"valid/cache.go", "LRUCache_Len"}}))
 }
